@@ -196,12 +196,15 @@ func (s *Sim) finish(before map[string]string) {
 		s.drain(3000)
 		close(s.endCh)
 		s.drain(3000)
+		s.releaseContexts()
+		s.drain(3000)
+		s.stats.VirtualNs = s.now()
 		// let every sleeper and timer run out
 		time.Sleep(100 * time.Hour)
 		s.drain(3000)
 		synctest.Wait()
 	}
-	s.stats.VirtualNs = s.now()
+	s.releaseContexts()
 	for _, p := range s.K.Panics {
 		s.viols = append(s.viols, Violation{Prop: "C05", Sig: "C05|panic|library-goroutine|" + firstLine(p), RPC: -1, Text: "a goroutine started by the library panicked (the process would have died): " + p})
 	}
@@ -229,6 +232,24 @@ func (s *Sim) finish(before map[string]string) {
 	}
 	if len(s.K.Panics) == 0 {
 		s.runOracles()
+	}
+}
+
+// releaseContexts makes sure no context handed to the library can be
+// cancelled by a finalizer after the bubble is gone (that is fatal in
+// synctest): everything is cancelled here, and the library's finalizers on
+// the stream objects are cleared.
+func (s *Sim) releaseContexts() {
+	for _, rs := range s.rpcs {
+		if rs.cancel != nil {
+			rs.cancel()
+		}
+		if rs.stream != nil {
+			func() {
+				defer func() { recover() }()
+				runtime.SetFinalizer(rs.stream, nil)
+			}()
+		}
 	}
 }
 
